@@ -13,6 +13,7 @@ def run(ctx, rep):
     crate = ctx.mir('ws-default')['logos_codegen']
     cg.rule_sites(rep, crate, want=('C10',))
     cg.rule_compile_lit(rep, crate)
+    cg.rule_literal_escape(rep, crate)
     if ctx.tier == 'thorough':
         crate2 = ctx.mir('codegen-sm')['logos_codegen']
         cg.rule_sites(rep, crate2, want=('C10',))
